@@ -89,26 +89,32 @@ def _replay(f):
 
 @region('C04-stale-attribute-bucket')
 def stale_bucket_region(failure):
-    """the recorded defect (DESIGN §8 row 12), by its root cause: within ONE flush window (the queues are snapshotted at
-    the first item an updates() generator yields, so `flush` and `part` both end a window) some prefix is announced
-    under two DIFFERENT attribute sets.  _update_rib leaves the route in the bucket of the earlier set; buckets are
-    emitted in first-insertion order, after the withdraws.  Whether the peer ends up wrong then depends on bucket
-    order and on what follows (third announce, withdraw, clear, or simply a bucket created earlier by ANOTHER prefix:
-    ann B x, ann A y, ann A x  ->  peer keeps y), so the region is the window shape itself.
-    Every sequence in which each prefix has at most one attribute set per window stays fully checked."""
+    """the recorded defect (DESIGN §8 row 12), by its root cause OBSERVED ON THE REAL OBJECT: the sequence is replayed on a
+    fresh OutgoingRIB and, at every announce, the queue is inspected: the defect is in play iff the prefix is still
+    queued (in _new_nlri, not yet snapshotted by an updates() generator) under an attribute set DIFFERENT from the one
+    now being announced.  _update_rib then leaves the route in the bucket of the earlier set; buckets are emitted in
+    first-insertion order, after the withdraws, and what the peer ends up with depends on what follows.
+    (The first version of this predicate modelled "flush windows" from the operation names and took every `part` for
+    the start of a new window; a `part` which only exhausts an earlier generator starts none -- a thorough-tier
+    sequence showed the model wrong.  The condition is now read from the real queue, not modelled.)
+    Every sequence in which no announce meets a queued entry of the same prefix with other attributes stays fully checked."""
     ops = failure.get('input', {}).get('ops')
     if not ops:
         return False
-    window = {}
-    for op in ops:
-        if op[0] in ('flush', 'part'):
-            window = {}
-        elif op[0] == 'ann':
-            sets = window.setdefault(op[1], set())
-            sets.add(op[2])
-            if len(sets) >= 2:
-                return True
+    s = Session(families=((1, 1),))
+    try:
+        for op in ops:
+            op = tuple(op)
+            if op[0] == 'ann':
+                r = route(P[op[1]], op[2])
+                queued = s.rib._new_nlri.get(r.index())
+                if queued is not None and queued.attributes.index() != r.attributes.index():
+                    return True
+            apply(s, op)
+    except Exception:  # noqa
+        return False
     return False
+
 
 
 # ------------------------------------------------------------------------------------------------ harness canaries
